@@ -74,7 +74,8 @@ Record JInv (s : jstate) : Prop := {
   j_globals: forall g, In g (jout s) -> jwho g = None ->
                tle (jP g, jraw g) (jlastg s) /\ jsfx g = 0 /\ 0 <= jw g <= cal_suffix_bits (sfx_max (jstore s));
   j_locals : forall r dc, In r (jout s) -> jwho r = Some dc ->
-               0 <= jsfx r < 2 ^ jw r /\ sfx_lookup (jstore s) dc = Some (jsfx r) /\ 0 <= jw r
+               0 <= jsfx r < 2 ^ jw r /\ sfx_lookup (jstore s) dc = Some (jsfx r) /\ 0 <= jw r;
+  j_req    : forall c set, jreq s = Some (c, set) -> 0 < c /\ forall dc, hosts s dc -> In dc set
 }.
 
 Lemma upd_f_same {A} (f : nat -> A) i x : upd_f f i x i = x.
@@ -140,6 +141,31 @@ Proof.
   - intros dc [m H]. discriminate.
   - intros g [].
   - intros r dc [].
+  - intros c set H; discriminate.
+Qed.
+
+Lemma max_over_ge_g s set : tle (jg s) (max_over s set).
+Proof. unfold max_over. apply fold_max_ge_init. Qed.
+
+(* the end of a Global request: above its own memory; every dc it synchronises is raised to the answer *)
+Lemma global_end_inv s c set :
+  JInv s -> 0 < c -> (forall dc, hosts s dc -> In dc set) -> JInv (global_end s c set).
+Proof.
+  intros I Gc Hset. unfold global_end.
+  set (x := (fst (max_over s set), snd (max_over s set) + c)).
+  assert (Hx : tle (max_over s set) x) by (subst x; ord).
+  constructor; cbn; try (apply I).
+  - apply tle_refl.
+  - intros d [m0 Hd]. cbn [jhost] in Hd.
+    assert (Hin : In d set) by (apply Hset; exists m0; exact Hd).
+    apply existsb_eqb_in in Hin. rewrite Hin. apply write_ge_v.
+  - intros g [Hg|Hg] Hw.
+    + subst g. cbn. split; [apply tle_refl|]. split; [reflexivity|].
+      split; [apply cal_suffix_bits_nonneg | apply cal_suffix_bits_mono; apply (j_view _ I)].
+    + destruct (j_globals _ I g Hg Hw) as (G1 & G2 & G3). split; [|tauto].
+      eapply tle_trans; [exact G1|]. eapply tle_trans; [exact (j_gmem _ I)|]. eapply tle_trans; [apply max_over_ge_g | exact Hx].
+  - intros r d [Hr|Hr] Hw; [subst r; discriminate | apply (j_locals _ I r d Hr Hw)].
+  - intros c0 set0 H; discriminate.
 Qed.
 
 Lemma sfx_lookup_assign_stable st dc dc' v :
@@ -148,7 +174,7 @@ Proof. apply sfx_assign_stable. Qed.
 
 Lemma jinv_step s l s' : JInv s -> jstep s l = Some s' -> JInv s'.
 Proof.
-  intros I H. destruct l; cbn [jstep] in H.
+  intros I H. destruct l; cbn [jstep jstep_gen] in H.
   - (* JCheckLeader *)
     destruct (sfx_assign (jstore s) dc) as [st v] eqn:A. inversion H; subst s'; clear H.
     pose proof (sfx_assign_ok _ dc (j_store _ I)) as Hok. rewrite A in Hok. cbn in Hok.
@@ -167,6 +193,7 @@ Proof.
       pose proof (cal_suffix_bits_mono _ _ M1). lia.
     + intros r d Hr Hw. destruct (j_locals _ I r d Hr Hw) as (L1 & L2 & L3). repeat split; try tauto.
       pose proof (sfx_lookup_assign_stable _ dc d _ L2) as S. rewrite A in S. exact S.
+    + exact (j_req _ I).
   - (* JCheckFollower *)
     inversion H; subst s'; clear H. constructor; cbn; try (apply I).
     + intros m0. pose proof (j_view _ I m0) as V. pose proof (j_view _ I m) as Vm.
@@ -175,7 +202,8 @@ Proof.
       unfold upd_f. destruct (Nat.eqb m0 m) eqn:E; [apply Nat.eqb_eq in E; subst; lia | exact Hw].
   - (* JStart *)
     destruct (sfx_lookup (jstore s) dc) as [v|] eqn:L; [|discriminate].
-    destruct (jhost s dc) eqn:Hh; [discriminate|]. inversion H; subst s'; clear H.
+    destruct (jhost s dc) eqn:Hh; [discriminate|].
+    destruct (jreq s) eqn:Rq; [discriminate|]. inversion H; subst s'; clear H.
     assert (Hv : 1 <= v <= sfx_max (jstore s)).
     { apply sfx_lookup_in in L. destruct (j_store _ I) as (_ & _ & H3). specialize (H3 _ L). exact H3. }
     constructor; cbn.
@@ -191,10 +219,14 @@ Proof.
       * apply (j_lmem _ I). exists m0. exact Hd.
     + exact (j_globals _ I).
     + exact (j_locals _ I).
+    + intros c set Hq. cbn in Hq. try rewrite Rq in Hq. discriminate.
   - (* JStop *)
     inversion H; subst s'; clear H. constructor; cbn; try (apply I).
     + intros d m Hd. unfold upd_f in Hd. destruct (Nat.eqb d dc); [discriminate|]. apply (j_known _ I d m Hd).
     + intros d [m Hd]. cbn [jhost jl jlastg] in Hd |- *. unfold upd_f in Hd. destruct (Nat.eqb d dc); [discriminate|]. apply (j_lmem _ I). exists m. exact Hd.
+    + intros c set Hq. split; [exact (proj1 (j_req _ I c set Hq))|].
+      intros d [m Hd]. cbn [jhost] in Hd. unfold upd_f in Hd. destruct (Nat.eqb d dc); [discriminate|].
+      apply (proj2 (j_req _ I c set Hq)). exists m. exact Hd.
   - (* JLeaderMove *)
     inversion H; subst s'; clear H. constructor; cbn; try (apply I).
     + intros m0. pose proof (j_view _ I m0) as V. pose proof (j_view _ I m) as Vm.
@@ -226,20 +258,20 @@ Proof.
     inversion H; subst s'; clear H. constructor; cbn; try (apply I).
     eapply tle_trans; [exact (j_gmem _ I) | apply tick_ge].
   - (* JGlobal *)
+    destruct (jreq s) eqn:Rq; [discriminate|].
+    destruct (all_hosted s && (0 <? c)) eqn:G; [|discriminate]. apply andb_true_iff in G as [Gh Gc]. apply Z.ltb_lt in Gc.
+    inversion H; subst s'; clear H. apply global_end_inv; [exact I | exact Gc |].
+    intros d [m0 Hd]. destruct (j_known _ I d m0 Hd) as (w & Lw & _). eapply hosted_in; eauto.
+  - (* JGBegin *)
+    destruct (jreq s) eqn:Rq; [discriminate|].
     destruct (all_hosted s && (0 <? c)) eqn:G; [|discriminate]. apply andb_true_iff in G as [Gh Gc]. apply Z.ltb_lt in Gc.
     inversion H; subst s'; clear H.
-    set (x := (fst (max_known s), snd (max_known s) + c)).
-    assert (Hx : tle (max_known s) x) by (subst x; ord).
     constructor; cbn; try (apply I).
-    + apply tle_refl.
-    + intros d [m0 Hd]. cbn [jhost jl jlastg] in Hd |- *. destruct (j_known _ I d m0 Hd) as (w & Lw & _).
-      pose proof (hosted_in _ _ _ _ Hd Lw) as Hin. apply existsb_eqb_in in Hin. rewrite Hin. apply write_ge_v.
-    + intros g [Hg|Hg] Hw.
-      * subst g. cbn. split; [apply tle_refl|]. split; [reflexivity|].
-        split; [apply cal_suffix_bits_nonneg | apply cal_suffix_bits_mono; apply (j_view _ I)].
-      * destruct (j_globals _ I g Hg Hw) as (G1 & G2 & G3). split; [|tauto].
-        eapply tle_trans; [exact G1|]. eapply tle_trans; [exact (j_gmem _ I)|]. eapply tle_trans; [apply max_known_ge_g | exact Hx].
-    + intros r d [Hr|Hr] Hw; [subst r; discriminate | apply (j_locals _ I r d Hr Hw)].
+    intros c0 set Hq. inversion Hq; subst. split; [exact Gc|]. intros d [m0 Hd]. cbn [jhost] in Hd.
+    destruct (j_known _ I d m0 Hd) as (w & Lw & _). eapply hosted_in; eauto.
+  - (* JGEnd *)
+    destruct (jreq s) as [[c set]|] eqn:Rq; [|discriminate]. inversion H; subst s'; clear H.
+    destruct (j_req _ I c set Rq) as [Gc Hset]. apply global_end_inv; assumption.
 Qed.
 
 Theorem jinv_exec leader g0 ls : JInv (exec jstep (jinit leader g0) ls).
@@ -253,11 +285,9 @@ Lemma start_above_last_global s dc m p s' :
   JInv s -> jstep s (JStart dc m p) = Some s' -> tle (jlastg s') (jl s' dc) /\ jhost s' dc = Some m.
 Proof.
   intros I H. pose proof (jinv_step _ _ _ I H) as I'.
-  cbn [jstep] in H. destruct (sfx_lookup (jstore s) dc) as [v|]; [|discriminate].
-  destruct (jhost s dc); [discriminate|]. inversion H; subst s'.
-  assert (Hh : jhost (JState (jstore s) (upd_f (jview s) m (Z.max (jview s m) v)) (upd_f (jhost s) dc (Some m)) (jpdl s) (jg s)
-                 (upd_f (jl s) dc (write_ts (tick (jl s dc) p) (max_known s))) (jlastg s) (jout s)) dc = Some m)
-    by (cbn; apply upd_f_same).
+  assert (Hh : jhost s' dc = Some m).
+  { cbn [jstep jstep_gen] in H. destruct (sfx_lookup (jstore s) dc); [|discriminate]. destruct (jhost s dc); [discriminate|].
+    destruct (jreq s); [discriminate|]. inversion H; subst s'. cbn. apply upd_f_same. }
   split; [apply (j_lmem _ I'); exists m; exact Hh | exact Hh].
 Qed.
 
@@ -266,7 +296,7 @@ Lemma local_above_last_global s dc c s' r :
   JInv s -> jstep s (JLocal dc c) = Some s' -> hd_error (jout s') = Some r ->
   tlt (jlastg s) (jP r, jraw r - jcnt r + 1) /\ jwho r = Some dc.
 Proof.
-  intros I H Hr. cbn [jstep] in H.
+  intros I H Hr. cbn [jstep jstep_gen] in H.
   destruct (jhost s dc) as [m|] eqn:Hh; [|discriminate].
   destruct (sfx_lookup (jstore s) dc) as [v|]; [|discriminate].
   destruct (0 <? c) eqn:Hc; [|discriminate]. apply Z.ltb_lt in Hc. inversion H; subst s'. cbn in Hr. inversion Hr; subst r. cbn.
@@ -337,7 +367,7 @@ Proof.
   intros I Hg Wg Hnn Hh Hview H Hr i Hi.
   destruct (j_globals _ I g Hg Wg) as (G1 & G2 & G3).
   pose proof (j_lmem _ I dc (ex_intro _ m Hh)) as T.
-  cbn [jstep] in H. rewrite Hh in H.
+  cbn [jstep jstep_gen] in H. rewrite Hh in H.
   destruct (sfx_lookup (jstore s) dc) as [v|] eqn:L; [|discriminate].
   destruct (0 <? c) eqn:Hc; [|discriminate]. apply Z.ltb_lt in Hc. inversion H; subst s'. cbn in Hr. inversion Hr; subst r. cbn in Hi |- *.
   pose proof (stored_suffix_bounds _ _ _ I L) as B.
@@ -388,3 +418,23 @@ Proof. eexists. eexists. vm_compute. repeat split; reflexivity. Qed.
 (* ... and the lagging member is exactly what no_lag excludes *)
 Lemma lag_state_lags : ~ no_lag lag_state.
 Proof. intros [NL _]. specialize (NL 1%nat 1%nat eq_refl). vm_compute in NL. apply NL. reflexivity. Qed.
+
+(* ---------------- why a starting allocator must not read the maximum while a Global request is in flight ---------------- *)
+
+(* the code before the repair: GetMaxLocalTSO did not take syncMu (jstep_gen false).  dc-2 joins while a Global request
+   for 3 timestamps is in flight; the request was begun before dc-2 existed and does not write to it; the Local
+   timestamp dc-2 hands out after the Global answer was returned is below it. *)
+Definition unexcluded_history : list jlabel :=
+  [JCheckLeader 1; JStart 1 0 1000; JGlobal 1; JGBegin 3; JCheckLeader 2; JStart 2 0 1000; JGEnd; JLocal 2 1].
+
+Lemma unexcluded_join_breaks_local_after_global :
+  let s := exec (jstep_gen false) (jinit 0 (5000, 0)) unexcluded_history in
+  exists g r, nth_error (jout s) 1 = Some g /\ nth_error (jout s) 0 = Some r /\
+    jwho g = None /\ jwho r = Some 2%nat /\ jP r = jP g /\ jraw r < jraw g /\ jlogical r < jlogical g.
+Proof. eexists. eexists. vm_compute. repeat split; reflexivity. Qed.
+
+(* with the exclusion the same schedule is impossible: the start waits for the end of the request *)
+Lemma excluded_join_waits :
+  let s := exec jstep (jinit 0 (5000, 0)) [JCheckLeader 1; JStart 1 0 1000; JGlobal 1; JGBegin 3; JCheckLeader 2] in
+  jstep s (JStart 2 0 1000) = None.
+Proof. vm_compute. reflexivity. Qed.
